@@ -75,10 +75,13 @@ def when(F, R):
                 found = lab
             elif desc.endswith('.ticking'):
                 ticking = bool_label(lab)
-            elif '::ge(' in desc and 'PartialOrd' in desc:
-                inner = desc[desc.index('::ge(') + 5:]
-                # operand order: clock time first, requested time second
-                if not ('.time' in inner.split(',')[0] and inner.split(',')[1].strip().startswith('&time')):
+            elif ('::ge(' in desc or '::le(' in desc) and 'PartialOrd' in desc:
+                m_ = 'ge' if '::ge(' in desc else 'le'
+                inner = desc[desc.index('::%s(' % m_) + 5:]
+                first, second = inner.split(',')[0], inner.split(',')[1].strip()
+                # clock_info.time >= time, or its mirror image time <= clock_info.time
+                good_order = ('.time' in first and second.startswith('&time')) if m_ == 'ge' else (first.startswith('&time') and '.time' in second)
+                if not good_order:
                     ok = False
                     why = 'the comparison is %s, not clock_info.time >= time' % desc
                 ge = bool_label(lab)
@@ -107,7 +110,8 @@ def when(F, R):
     R.check(ok, 'B.C05.when', 'path-predicate', why, detail={'paths': len(prs), 'outcomes': sorted(kinds)}, where=b.file)
     # uses the PartialOrd of ClockTime with >= (not >)
     cs = calls_where(b, lambda p, t: 'PartialOrd' in p or t['callee'].get('trait', '').endswith('PartialOrd'))
-    R.check(len(cs) == 1 and cs[0][1]['callee']['name'] == 'ge', 'B.C05.when', 'operator',
+    # `clock_info.time >= time` or, mirrored, `time <= clock_info.time` (operand roles are checked above)
+    R.check(len(cs) == 1 and cs[0][1]['callee']['name'] in ('ge', 'le'), 'B.C05.when', 'operator',
             'when_to_start compares with %s (documented: at most one buffer early, never late => >=)' % [c[1]['callee']['name'] for c in cs],
             detail='clock_info.time >= time')
     cb = F.body("info::Info::<'a>::clock_info")
